@@ -1,6 +1,7 @@
 use crate::rt::Ctx;
 
 pub mod acct;
+pub mod c01;
 pub mod c02;
 pub mod c03;
 pub mod c03_shell;
@@ -20,6 +21,7 @@ pub mod c17;
 /// Runs the check for `ctx.id`; returns the evidence level, or None for an unknown id.
 pub fn run(ctx: &Ctx) -> Option<&'static str> {
     match ctx.id.as_str() {
+        "C01" => Some(c01::run(ctx)),
         "C02" => Some(c02::run(ctx)),
         "C03" => Some(c03::run(ctx)),
         "C04" => Some(c04::run(ctx)),
